@@ -423,6 +423,13 @@ func driveMerge(prop string, seed int64, tier, out, replay string) {
 						addPerms(setToCase(cs, hide, "conflict:"+k), k, 6)
 					}
 				}
+				if i%3 == 0 {
+					wr := hx.NewRand(int64(i) + 4242)
+					k := gen.WrapperConflictKinds[(i/3)%len(gen.WrapperConflictKinds)]
+					if cs, ok := gen.Conflict(wr, base, k); ok {
+						addPerms(setToCase(cs, hide, "conflict:"+k), k, 6)
+					}
+				}
 			}
 		}
 	}
